@@ -146,6 +146,27 @@ fn spice(rng: &mut Rng, def: &mut Definition) {
             s.ident = Some("идент".into());
         }
     }
+    // pairs of specials of one kind whose scores are equal as numbers but differ in bits (+0.0 / -0.0),
+    // in both id orders: the order must then be decided by the id, not by the sign bit
+    if rng.chance(1, 2) {
+        let zero_first = rng.chance(1, 2);
+        let base = 9_100_000 + rng.below(1000) as u32 * 2;
+        let kind = if rng.chance(1, 2) { SpecialTokenKind::Control } else { SpecialTokenKind::Priority };
+        for (k, text) in ["<z>", "<z>y"].iter().enumerate() {
+            if def.specials.iter().any(|s| s.bytes == text.as_bytes()) {
+                continue;
+            }
+            let plus = (k == 0) == zero_first;
+            def.specials.push(SpecialToken {
+                id: base + k as u32,
+                bytes: text.as_bytes().to_vec(),
+                kind,
+                ident: None,
+                score: if plus { 0.0 } else { -0.0 },
+                extract: false,
+            });
+        }
+    }
     if let Model::Unigram { scores, .. } = &mut def.model {
         for s in scores.iter_mut() {
             if rng.chance(1, 10) {
@@ -214,7 +235,29 @@ pub fn gen(rng: &mut Rng, thorough: bool, out: &mut Sink) {
         out.push(deser_line(&bytes));
         // TODEF only where the export is deterministic: canonical order is what to_definition itself produces
         let canonical = guarded(|| Kitoken::from_definition(def.clone()).ok().map(|t| t.to_definition()));
-        if let Some(Some(canon)) = canonical {
+        if let Some(Some(mut canon)) = canonical {
+            // specials in the documented order, sorted here independently of the library's `Ord`:
+            // kind, then score as a number (so -0.0 = +0.0, NaN incomparable = equal), then id, then bytes
+            canon.specials.sort_by(|a, b| {
+                let kind = |k: &SpecialTokenKind| match k {
+                    SpecialTokenKind::Unknown => 0u8,
+                    SpecialTokenKind::Control => 1,
+                    SpecialTokenKind::Priority => 2,
+                };
+                kind(&a.kind)
+                    .cmp(&kind(&b.kind))
+                    .then_with(|| {
+                        if a.score < b.score {
+                            std::cmp::Ordering::Less
+                        } else if a.score > b.score {
+                            std::cmp::Ordering::Greater
+                        } else {
+                            std::cmp::Ordering::Equal
+                        }
+                    })
+                    .then_with(|| a.id.cmp(&b.id))
+                    .then_with(|| a.bytes.cmp(&b.bytes))
+            });
             let cbytes = canon.to_vec();
             out.push(todef_line(&cbytes));
             // exporting a canonical definition returns it
